@@ -167,6 +167,30 @@ Proof.
   rewrite Hs in Hf. exact Hf.
 Qed.
 
+(* every Init call on the combination reaches emitter i once per occurrence, whatever i *)
+Definition is_init {E} (o : sop E) : bool := match o with SInit _ => true | SEv _ _ => false end.
+
+Lemma srun_init_count {E} ls i (ops : list (sop E)) : forall s,
+  length (filter is_init (sees i (srun ls s ops))) = count_occ Nat.eq_dec ls i * length (filter is_init ops).
+Proof.
+  induction ops as [|o ops IH]; intros s; [cbn; lia|].
+  cbn [srun]. destruct o as [info|h e]; cbn [sstep].
+  - destruct (init_all ls (s_cnt s)) as [c' k].
+    rewrite sees_app, filter_app, app_length, IH, sees_init. cbn [filter is_init length].
+    assert (Hr : forall n, length (filter is_init (repeat (SInit info) n)) = n).
+    { induction n as [|n IHn]; [reflexivity|]. cbn [repeat filter is_init length]. now rewrite IHn. }
+    rewrite Hr. lia.
+  - rewrite sees_app, filter_app, app_length, IH, sees_ev. cbn [filter is_init].
+    assert (Hm : forall l : list (nat * nat), filter is_init (map (fun p => SEv (snd p) e) l) = []).
+    { induction l as [|p l IHl]; [reflexivity|]. cbn [map filter is_init]. exact IHl. }
+    rewrite Hm. cbn [length]. lia.
+Qed.
+
+Theorem session_init_count {E} t (ops : list (sop E)) i :
+  length (filter is_init (sees i (session (build t) ops))) =
+  count_occ Nat.eq_dec (leaves t) i * length (filter is_init ops).
+Proof. unfold session. rewrite deliver_build. apply srun_init_count. Qed.
+
 (* non-vacuity: a nested expression with a shared leaf and a session with two children *)
 Example session_example :
   let t := EStack [ELeaf 1; EStack [ENop; ELeaf 2; EStack [ELeaf 3]]; ELeaf 4] in
